@@ -358,6 +358,67 @@ def boundary_stream(tier, stats, out_probs, known_hits):
     return n
 
 
+KEY_VERSIONS = (39, 36, 33, 32, 25, 24, 18, 14, 10, 4, 0)
+
+
+def key_variants(k):
+    """spellings of a query KEY around what the key patterns accept (`$` also matches before a trailing line feed)"""
+    base = [k + '\n', k + ' ', ' ' + k, k + '\t', k + '\r\n', k + '\x00', k.upper(), k + '\u0661', k + '_', k + '-', k + '1\n', k + '_A\n',
+            k + '_' + 'x' * 64 + '\n', k + '\n\n', '\n' + k, k + '[]', k + '.x']
+    if k[-1:].isdigit() or '_' in k[len('resources'):]:
+        stem = k.rstrip('0123456789')
+        base += [stem + '\n', stem + '01', stem + '\u0662']
+    return base
+
+
+def key_stream(tier, stats, out_probs, known_hits):
+    """every GET template with query parameters x every parameter x every spelling variant of its KEY x versions on both
+    sides of the query-schema changes; the variant replaces the key (the regular spelling absent) or accompanies it"""
+    n = 0
+    templates = [t for t in fuzz.valid_requests() if t[0] == 'GET' and t[2]]
+    app = impl.App()
+    surface.setup_state(app)
+    before = core(app.raw_dump())
+    for tmpl in templates:
+        keys = list(tmpl[2])
+        for ki, k in enumerate(keys):
+            variants = key_variants(k)
+            if tier == 'quick':
+                variants = variants[:1] + random.Random(len(k) + ki).sample(variants[1:], 5)
+            for kv in variants:
+                for both in (False, True):
+                    for v in (KEY_VERSIONS if tier != 'quick' else KEY_VERSIONS[:7]):
+                        q = []
+                        for k2 in keys:
+                            if k2 == k:
+                                if both:
+                                    q.append((k2, tmpl[2][k2]))
+                                q.append((kv, tmpl[2][k2]))
+                            else:
+                                q.append((k2, tmpl[2][k2]))
+                        m = fuzz.mutate(random.Random(0), ('GET', '/', None, None))
+                        m.update({'method': 'GET', 'path': tmpl[1], 'query': q, 'body': None, 'ctype': None,
+                                  'what': ['key spelling %r' % kv]})
+                        m['headers']['openstack-api-version'] = 'placement 1.%d' % v
+                        del LAST_EXC[:]
+                        resp, err = fuzz.issue(app, m)
+                        st = resp.status_int if resp is not None else -1
+                        n += 1
+                        stats['evaluations'] += 1
+                        stats['status'][st] += 1
+                        stats['route']['GET ' + tmpl[1].split('/')[1]] += 1
+                        stats['mutation']['key'] += 1
+                        for p in judge(m, resp, err, before, before):
+                            if p[0] == 'server-error':
+                                f = known_match(p[2], m, app)
+                                if f is not None:
+                                    known_hits.append((f, 'plain', jsonable(m)))
+                                    continue
+                            out_probs.append({'state': 'plain', 'index': -3, 'request': jsonable(m), 'kind': p[0], 'text': p[1], 'status': st})
+    app.close()
+    return n
+
+
 def history_state(app, rng, n_ops):
     dump = ops.canon_dump(app.raw_dump())
     for _ in range(n_ops):
@@ -432,6 +493,7 @@ def run(pid, tier, out):
                    known_hits)
         app.close()
     n_boundary = boundary_stream(tier, stats, probs, known_hits)
+    n_keys = key_stream(tier, stats, probs, known_hits)
     # the known trigger itself, so that the finding is looked at on every run
     app = impl.App()
     exotic_state(app)
@@ -564,7 +626,7 @@ def run(pid, tier, out):
            'status_histogram': {str(k): v for k, v in sorted(stats['status'].items())},
            'route_histogram': dict(stats['route']), 'mutation_histogram': dict(stats['mutation']),
            'known_finding_hits': len(known_hits), 'problems': len(probs),
-           'boundary_variants_over_http': n_boundary, 'parser_cases': pn_cases, 'parser_disagreements': len(pdis), 'parser_cases_by_kind': pstats.get('by_kind'),
+           'boundary_variants_over_http': n_boundary, 'query_key_spellings_over_http': n_keys, 'parser_cases': pn_cases, 'parser_disagreements': len(pdis), 'parser_cases_by_kind': pstats.get('by_kind'),
            'parser_builtin_table_discrepancies': pstats.get('table_discrepancies'),
            'schema_documents': sn_cases, 'schema_disagreements': len(sdis), 'schema_stats': sstats,
            'decoded_bodies': dn, 'decode_disagreements': len(ddis), 'decoded_by_kind': dkinds,
